@@ -82,7 +82,13 @@ pub mod shims {
         pub fn new(config: FileLogWriterConfig, o_rotation_config: Option<RotationConfig>, cleanup_in_background_thread: bool) -> (r: State)
             ensures r.config == config, r.o_rot == o_rotation_config, r.bg == cleanup_in_background_thread { unimplemented!() }
     }
-    pub struct FileLogWriter { _o: () }
+    /// SHIM for FileLogWriter::new (proved in unit `flw`: FileLogWriter::new.post.*)
+    pub struct FileLogWriter { pub state: State, pub max_log_level: log::LevelFilter, pub format: VFormatFn }
+    impl FileLogWriter {
+        #[verifier::external_body]
+        pub fn new(state: State, max_log_level: log::LevelFilter, format_function: VFormatFn) -> (r: FileLogWriter)
+            ensures r.state == state, r.max_log_level == max_log_level, r.format == format_function { unimplemented!() }
+    }
     pub trait LogWriter {}
 }
 pub mod builder {
@@ -92,6 +98,7 @@ pub mod builder {
     use std::path::{Path, PathBuf};
     broadcast use group_aspath, ax_aspath_str;
 
+    type FormatFunction = VFormatFn;
     //@ item src/writers/file_log_writer/builder.rs struct FileLogWriterBuilder
 
     /// F4: a path without a directory part means the current folder
@@ -108,6 +115,17 @@ pub mod builder {
             && (match (st.config.o_create_symlink, self.cfg_o_create_symlink) { (Some(a), Some(b)) => pathbuf_view(&a) == pathbuf_view(&b), (None, None) => true, _ => false })
             && st.o_rot == self.o_rotation_config && st.bg == self.cleanup_in_background_thread
         }
+        pub closed spec fn fmt(&self) -> VFormatFn { self.format }
+        pub closed spec fn ceiling(&self) -> log::LevelFilter { self.max_log_level }
+    //@ fn src/writers/file_log_writer/builder.rs impl FileLogWriterBuilder / fn format
+    //@   ret r
+    //@   props C20
+    //@   rule R10b 1
+    //@   ens[FileLogWriterBuilder::format.post] r.fmt() == format && r.mode() == self.mode() && r.ceiling() == self.ceiling() && r.dir() == self.dir()
+    //@ fn src/writers/file_log_writer/builder.rs impl FileLogWriterBuilder / fn try_build
+    //@   ret r
+    //@   props C20,C13,C16
+    //@   ens[try_build.post] r is Ok ==> r->Ok_0.format == self.fmt() && r->Ok_0.max_log_level == self.ceiling() && self.transferred(&r->Ok_0.state)
     //@ fn src/writers/file_log_writer/builder.rs impl FileLogWriterBuilder / fn assert_write_mode
     //@   ret r
     //@   props C18
